@@ -27,6 +27,36 @@ def sel(name):
     return 'env."%s"' % name
 
 
+CONTEXTS = ["plain", "plain", "func", "module_out", "module_body", "fmt_expr", "map_cb", "nested_module", "select_arm", "reduce_cb"]
+
+
+def wrap(kind, R, tag):
+    """an env read R placed in an evaluation context -> (statements before, expression, value -> expected JSON)"""
+    ident = lambda v: v
+    if kind == "plain":
+        return [], R, ident
+    if kind == "func":
+        return [("let", "f" + tag, ("func", ["x"], R))], ("call", ("sym", "f" + tag), [("int", 1)]), ident
+    if kind == "module_out":
+        return [("let", "m" + tag, ("module", [], R, [("let", "q", ("int", 1))]))], ("copy", ("sym", "m" + tag), []), ident
+    if kind == "module_body":
+        return ([("let", "m" + tag, ("module", [], None, [("let", "r", R)]))],
+                ("bin", "DOT", ("copy", ("sym", "m" + tag), []), ("sym", "r")), ident)
+    if kind == "nested_module":
+        inner = ("module", [], R, [("let", "q", ("int", 1))])
+        return ([("let", "m" + tag, ("module", [], None, [("let", "inner", inner), ("let", "r", ("copy", ("sym", "inner"), []))]))],
+                ("bin", "DOT", ("copy", ("sym", "m" + tag), []), ("sym", "r")), ident)
+    if kind == "fmt_expr":
+        return [], ("fmts", [("s", "v="), ("e", R)], ("int", 1)), (lambda v: "v=" + ("NULL" if v is None else v))
+    if kind == "map_cb":
+        return [], ("map", ("func", ["x"], R), ("list", [("int", 1), ("int", 2)])), (lambda v: [v, v])
+    if kind == "reduce_cb":
+        return [], ("reduce", ("func", ["acc", "x"], R), ("int", 0), ("list", [("int", 1)])), ident
+    if kind == "select_arm":
+        return [], ("select", ("str", "a"), None, [("a", R)]), ident
+    raise ValueError(kind)
+
+
 def run(tier, seed):
     ck = C.Check(PID, tier, seed, "proof")
     cov = ck.coverage
@@ -49,6 +79,7 @@ def run(tier, seed):
     os.makedirs(root)
     jobs, meta = [], []
     model_cases = []
+    ctx_stats = {}
     for i in range(n):
         nvars = rng.randint(0, 20)
         envd = {}
@@ -66,24 +97,28 @@ def run(tier, seed):
             while unset in envd:
                 unset += "X"
         strict = rng.random() < 0.6
-        fields = ["v%d = %s" % (j, sel(k)) for j, k in enumerate(read)]
-        if unset:
-            fields.append("u = %s" % sel(unset))
-        fields.append("f = {env = 5}.env")
-        src = "out json {%s};\n" % ", ".join(fields)
+        def key(k):
+            return ("sym", k) if sel(k).startswith("env.") and not sel(k).startswith('env."') else ("str", k)
+        pre, exprs, want_of = [], [], []
+        for j, k in enumerate(read + ([unset] if unset else [])):
+            R = ("bin", "DOT", ("sym", "env"), key(k))
+            ctxk = rng.choice(CONTEXTS)
+            st, e, w = wrap(ctxk, R, "h%d_%d" % (i, j))
+            pre += st
+            exprs.append(("u" if k == unset else "v%d" % j, e))
+            want_of.append((("u" if k == unset else "v%d" % j), k, w))
+            ctx_stats[ctxk] = ctx_stats.get(ctxk, 0) + 1
+        src = "".join(P.stmt_text(x) + "\n" for x in pre)
+        src += "out json {%s};\n" % ", ".join(["%s = %s" % (n, P.to_text(e)) for n, e in exprs] + ["f = {env = 5}.env"])
         d = os.path.join(root, "c%d" % i)
         os.makedirs(d)
         open(os.path.join(d, "e.ucg"), "w").write(src)
         penv = {k: v for k, v in envd.items()}
         argv = [C.UCG_BIN] + ([] if strict else ["--no-strict"]) + ["build", "e.ucg"]
         jobs.append((argv, d, penv))
-        meta.append((d, src, envd, read, unset, strict, secret))
+        meta.append((d, src, envd, want_of, unset, strict, secret))
         # the same reads through the definitional semantics
-        def key(k):
-            return ("sym", k) if sel(k).startswith("env.") and not sel(k).startswith('env."') else ("str", k)
-        prog = [("let", "v%d" % j, ("bin", "DOT", ("sym", "env"), key(k))) for j, k in enumerate(read)]
-        if unset:
-            prog.append(("let", "u", ("bin", "DOT", ("sym", "env"), key(unset))))
+        prog = list(pre) + [("let", n, e) for n, e in exprs]
         model_cases.append((prog, sorted(envd.items()), strict))
     # binding env is an error
     bind_cases = ["let env = 1;\n", "let f = func (env) => env;\nlet r = f(1);\n", "let m = map(func (env) => env, [1]);\n"]
@@ -104,7 +139,8 @@ def run(tier, seed):
         if secret in err or secret in out:
             real.append(dict(base, why="the diagnostic discloses the value of an unrelated variable", stderr=err[-600:]))
             continue
-        others = [v for k, v in envd.items() if k not in read and len(v) >= 6 and v.strip()]
+        readnames = [k for _, k, _ in read]
+        others = [v for k, v in envd.items() if k not in readnames and len(v) >= 6 and v.strip()]
         leaked = [v for v in others if v in err]
         if leaked:
             real.append(dict(base, why="the diagnostic discloses the value of an unrelated variable", stderr=err[-600:]))
@@ -119,10 +155,8 @@ def run(tier, seed):
             real.append(dict(base, why="build failed: " + err[-300:]))
             continue
         got = json.load(open(os.path.join(d, "e.json")))
-        want = {"v%d" % j: envd[k] for j, k in enumerate(read)}
+        want = {n: w(envd.get(k)) for n, k, w in read}
         want["f"] = 5
-        if unset:
-            want["u"] = None
         if not V.same_data(got, want):
             real.append(dict(base, why="env values differ", got=got, want=want))
     shutil.rmtree(root, ignore_errors=True)
@@ -142,8 +176,9 @@ def run(tier, seed):
     cov["evaluations"] = len(jobs) + len(model_cases)
     cov["distinct_nontrivial"] = len(set(m[1] for m in meta))
     cov["rule"] = ("random process environments of 0..20 variables (names [A-Za-z_][A-Za-z0-9_]*, values arbitrary Unicode without NUL) plus a planted "
-                   "secret, passed to the real `ucg` process (exact environment, nothing inherited); programs read set and unset names, strict "
+                   "secret, passed to the real `ucg` process (exact environment, nothing inherited); programs read set and unset names at top level, in function bodies, module bodies and out-expressions, nested modules, expression-format strings, map/reduce callbacks and select arms, strict "
                    "and --no-strict, plus a tuple field named env; binding env by let / parameter; the same reads through the definitional semantics")
+    cov["generator_distribution"] = ctx_stats
     cov["samples"] = [meta[0][1], meta[1][1]]
     cov["traces_validated_against_impl"] = len(jobs)
     cov["disagreements_model_vs_impl"] = disagreements
